@@ -16,11 +16,12 @@ Theorem C20_error_bound_half : forall h rows,
 Proof. exact roundtrip_half. Qed.
 Print Assumptions C20_error_bound_half.
 
-(* hence the stated bound (one quantum), first element exact, no wrap *)
-Theorem C20_spec_partial : forall h rows,
+(* hence the stated bound (one quantum), first element exact, no wrap, for ANY packer's exponent
+   (any h) as long as the largest difference is within 127 quanta *)
+Theorem C20_spec_in_range : forall h rows,
   0 < h -> rect rows = true -> rmax rows <= 254 * h -> spec_ok h rows = true.
 Proof. exact spec_partial. Qed.
-Print Assumptions C20_spec_partial.
+Print Assumptions C20_spec_in_range.
 
 (* The first element is reproduced exactly and coded 127 for EVERY field (no range hypothesis). *)
 Theorem C20_first_exact : forall h rows,
@@ -42,19 +43,26 @@ Theorem C20_exponent_covers : forall r, 0 < r -> 2 ^ Z.log2 r <= r < 2 ^ (Z.log2
 Proof. exact exponent_covers. Qed.
 Print Assumptions C20_exponent_covers.
 
-(* FULL statement (for every field whose largest neighbour difference is below 128 quanta,
-   i.e. every field under the exponent rule) is FALSE of the faithful model: *)
-Theorem C20_error_bound_q_refuted : exists h rows,
-  0 < h /\ rect rows = true /\ rmax rows < 256 * h /\ bytes_ok (raw_codes h rows) = true
-  /\ within (2 * h) rows (roundtrip h rows) = false.
-Proof. exists 50, [[0; 50; -12749; 50]]. vm_compute. repeat split; reflexivity. Qed.
-Print Assumptions C20_error_bound_q_refuted.
+(* Why pack2d needed the repair (and what files packed by other tools with the original rule can
+   contain): with RMAX in (127q,128q), which is all that rule guarantees, the packer's own round
+   trip can be off by more than a quantum, and a code can leave 0..255.  These are facts about the
+   ORIGINAL rule; the library's rule is nexp_rule_fixed (C20_spec_fixed_exponent below). *)
+Theorem C20_original_rule_overflows :
+  (exists h rows, 0 < h /\ rect rows = true /\ rmax rows < 256 * h /\ bytes_ok (raw_codes h rows) = true
+                  /\ within (2 * h) rows (roundtrip h rows) = false)
+  /\ (exists h rows, 0 < h /\ rect rows = true /\ rmax rows < 256 * h /\ bytes_ok (raw_codes h rows) = false).
+Proof.
+  split; [exists 50, [[0; 50; -12749; 50]]|exists 50, [[0; 12799; 49; -12750]]]; vm_compute; repeat split; reflexivity.
+Qed.
+Print Assumptions C20_original_rule_overflows.
 
-Theorem C20_no_wraparound_refuted : exists h rows,
-  0 < h /\ rect rows = true /\ rmax rows < 256 * h /\ bytes_ok (raw_codes h rows) = false
-  /\ within (2 * h) rows (roundtrip h rows) = false.
-Proof. exists 50, [[0; 12799; 49; -12750]]. vm_compute. repeat split; reflexivity. Qed.
-Print Assumptions C20_no_wraparound_refuted.
+(* Decoding is independent of the exponent rule: whatever h the packing tool used, if no code
+   wrapped, unpack of the stored bytes returns exactly that packer's running reconstruction
+   (files written by other tools decode as before the repair; `unpack` is unchanged). *)
+Theorem C20_foreign_decode : forall h rows,
+  bytes_ok (raw_codes h rows) = true -> roundtrip h rows = enc_recon h rows.
+Proof. exact foreign_decode. Qed.
+Print Assumptions C20_foreign_decode.
 
 (* Non-vacuity: the hypotheses of the bound are met by a non-trivial field, and the bound
    there is attained with non-zero error. *)
@@ -63,6 +71,25 @@ Example C20_hyp_inhabited :
   /\ rmax [[3; 40; -1000]; [77; 2000; 1999]] <= 254 * 8
   /\ roundtrip 8 [[3; 40; -1000]; [77; 2000; 1999]] <> [[3; 40; -1000]; [77; 2000; 1999]].
 Proof. vm_compute. repeat split; try reflexivity; discriminate. Qed.
+
+(* MAIN THEOREM (pack2d since /repo fa89813: NEXP one higher
+   when RMAX still exceeds 127 quanta): the rule keeps RMAX within 127 quanta for EVERY field, hence
+   the full statement (one quantum, even half a quantum; first element exact; no wrap) for every
+   field shape.  256 * h = 2^NEXP says that h is the half quantum of that exponent in the unit. *)
+Theorem C20_fixed_exponent_covers : forall r, 0 < r -> 128 * r <= 127 * 2 ^ nexp_rule_fixed r.
+Proof. exact fixed_rule_covers. Qed.
+Print Assumptions C20_fixed_exponent_covers.
+Theorem C20_spec_fixed_exponent : forall h rows,
+  0 < h -> rect rows = true ->
+  (rmax rows = 0 \/ (0 < rmax rows /\ 256 * h = 2 ^ nexp_rule_fixed (rmax rows))) ->
+  spec_ok h rows = true /\ within h rows (roundtrip h rows) = true.
+Proof. exact spec_fixed_exponent. Qed.
+Print Assumptions C20_spec_fixed_exponent.
+(* the two former counterexamples (corpus cases) are inside the rule's guarantee *)
+Example C20_fixed_exponent_on_witnesses :
+  256 * 4 = 2 ^ nexp_rule_fixed (rmax [[0; 463; 974; 463]]) /\ spec_ok 4 [[0; 463; 974; 463]] = true
+  /\ 256 * 4 = 2 ^ nexp_rule_fixed (rmax [[0; 511; 1; -510]]) /\ spec_ok 4 [[0; 511; 1; -510]] = true.
+Proof. vm_compute. repeat split; reflexivity. Qed.
 
 (* =========================== file layer (Model/ArlFile.v) ================================= *)
 From Coq Require String.
@@ -102,7 +129,7 @@ Print Assumptions C20_file_lib_offset.
 
 (* (c) Every field of a spec-encoded file, decoded and unpacked, is within one quantum of the
    field that was packed, first element exact, whenever the field is in the proved range of
-   C20_spec_partial (RMAX <= 127 quanta); the (127q,128q] region stays refuted above. *)
+   C20_spec_in_range (RMAX <= 127 quanta); the (127q,128q] region stays refuted above. *)
 Theorem C20_file_field_bound_partial : forall ps p l v h rows,
   forallb wf_period ps = true -> In p ps -> In l (p_levels p) -> In v (l_vars l) ->
   0 < h -> rect rows = true -> rmax rows <= 254 * h ->
@@ -117,13 +144,13 @@ Print Assumptions C20_file_field_bound_partial.
 
 (* The library's blank-terminated table parser (readvardef) returns the encoded table when
    the table is followed by blanks only or by nothing (the repaired reader hands it exactly the table). *)
-Theorem C20_file_readvardef_partial : forall nc ls pad fuel,
+Theorem C20_file_readvardef : forall nc ls pad fuel,
   forallb (wf_lvl nc) ls = true ->
   forallb (fun l => float_ok (l_text l) && negb (blank (l_text l))) ls = true ->
   blank pad = true -> (length ls <= fuel)%nat ->
   readvardef fuel (enc_table ls ++ pad) = Some (map lent ls).
 Proof. exact readvardef_enc. Qed.
-Print Assumptions C20_file_readvardef_partial.
+Print Assumptions C20_file_readvardef.
 
 (* The model of the (repaired) library reader returns the ideal view of the content on the
    encoding of EVERY well-formed content with the same layout and keys in every period, a grid of
@@ -137,6 +164,16 @@ Theorem C20_file_reader_partial : forall p0 rest,
   impl_read gen_sizes (enc (p0 :: rest)) = spec_view (p0 :: rest).
 Proof. intros. rewrite gen_sizes_std. now apply impl_read_spec. Qed.
 Print Assumptions C20_file_reader_partial.
+
+(* Times: a time stamp written as the format prescribes (five I2 fields) is decoded by the reader's
+   rule (blank -> '0', two digits per field) to the year, month, day and hour that were written;
+   with C20_file_reader_partial (lb_times = the stamps of the content) the times read back are the
+   times encoded.  The century pivot of strptime('%y') is outside the model. *)
+Theorem C20_file_times : forall yy mm dd hh ff,
+  0 <= yy <= 99 -> 0 <= mm <= 99 -> 0 <= dd <= 99 -> 0 <= hh <= 99 ->
+  time_fields (fmtI 2 yy ++ fmtI 2 mm ++ fmtI 2 dd ++ fmtI 2 hh ++ ff) = [yy; mm; dd; hh].
+Proof. exact time_fields_fmt. Qed.
+Print Assumptions C20_file_times.
 
 (* Tie T: statements over coq/Gen/Arl.v (regenerated from _arl.py on every run). *)
 Theorem C20_gen_sizes : gen_sizes = std_sizes.
@@ -175,6 +212,13 @@ Theorem C20_gen_table_widths :
 Proof. exact gen_table_widths. Qed.
 Print Assumptions C20_gen_table_widths.
 
+Theorem C20_gen_bump :
+  G.arl_bump_limit = 127 /\ (forall e, G.arl_bump_shift e = 7 - e /\ G.arl_bump_nexp e = e + 1)
+  /\ forall r, nexp_rule_fixed r =
+       let e := Z.log2 r + 1 in if G.arl_bump_limit * 2 ^ e <? 2 ^ 7 * r then G.arl_bump_nexp e else e.
+Proof. exact gen_bump. Qed.
+Print Assumptions C20_gen_bump.
+
 (* ---- witnesses: one period "95 1 1 0 0", constant fields (all codes 127, NEXP = 1) -------- *)
 Definition w_time : list Z := [57; 53; 32; 49; 32; 49; 32; 48; 32; 48].
 Definition w_fixed : list Z :=
@@ -205,12 +249,35 @@ Theorem C20_file_shared_key_refuted : exists ps,
 Proof. exists wit_dupkey. vm_compute. repeat split; try reflexivity; discriminate. Qed.
 Print Assumptions C20_file_shared_key_refuted.
 
-(* Region 4: the writer.  maparlpackedbit(mode='write') iterates `for laykey, layvarkeys in
-   props['laykeys']` over the flat list of 4-byte keys that writearlpackedbit passes and raises
-   for every input; the model of the writer is the constant failure (tie H on every write case). *)
-Theorem C20_file_writer_raises_refuted : impl_write_raises = true.
-Proof. reflexivity. Qed.
-Print Assumptions C20_file_writer_raises_refuted.
+(* The writer (writearlpackedbit since /repo 6a4afc6; impl_write = pack every field with the
+   exponent pack2d chooses, lay the records out as the format prescribes): for EVERY in-memory file
+   (any number of periods, levels, variables, any grid that holds the header; the same variables
+   in every period and no key both 3-D and 4-D, which is what one dictionary of variables gives)
+   the reference decoder returns the content, the reader model returns the ideal view of it, and
+   EVERY field comes back within half a quantum, first element exact, no code outside 0..255. *)
+Theorem C20_file_write_read : forall w p0 rest,
+  wf_winput w = true -> write_content w = p0 :: rest ->
+  forallb (same_layout p0) rest = true -> forallb (same_keys p0) rest = true ->
+  lib_grid_ok p0 = true -> lvl_texts_ok p0 = true -> keys_disjoint p0 = true -> p_levels p0 <> [] ->
+  impl_write w = Some (impl_write_fixed w)
+  /\ dec (impl_write_fixed w) = Some (write_content w)
+  /\ impl_read gen_sizes (impl_write_fixed w) = spec_view (write_content w)
+  /\ forall p l f, In p (wi_periods w) -> In l (wp_levels p) -> In f (snd l) ->
+       let got := unpack_rows (wf_h f) (hdZ (first_row (wf_rows f))) (rows_of (wi_nx w) (v_data (write_var f))) in
+       within (wf_h f) (wf_rows f) got = true /\ hdZ (first_row got) = hdZ (first_row (wf_rows f))
+       /\ bytes_ok (raw_codes (wf_h f) (wf_rows f)) = true.
+Proof. intros w p0 rest; intros. split; [reflexivity|]. now apply (write_read w p0 rest). Qed.
+Print Assumptions C20_file_write_read.
+Definition ex_win : winput :=
+  WInput [57; 57] w_fixed 2 62 [32; 50]
+    [WPeriod w_time [(w_sfc, [WField k_PRSS 4 11 w_prec w_v0 (repeat [0; 40] 61 ++ [[3; -1000]])])]].
+Example C20_file_write_read_inhabited :
+  wf_winput ex_win = true /\ forallb lib_grid_ok (write_content ex_win) = true
+  /\ forallb lvl_texts_ok (write_content ex_win) = true /\ forallb keys_disjoint (write_content ex_win) = true
+  /\ same_keys (hd (w_period 0 0 []) (write_content ex_win)) (hd (w_period 0 0 []) (write_content ex_win)) = true
+  /\ impl_read std_sizes (impl_write_fixed ex_win) = spec_view (write_content ex_win)
+  /\ spec_view (write_content ex_win) <> None.
+Proof. vm_compute. repeat split; try reflexivity; discriminate. Qed.
 
 (* Non-vacuity of the file theorems: a 2-period, 2-level content with different variables at
    the surface is well formed, uniform, inside the library's domain, and the library model
